@@ -61,6 +61,22 @@ def check_balance(prog, chk, rule, only=None):
             if depth != exp:
                 bad.setdefault((exit_desc(node), cls, depth, exp), (st, node))
         for kind, line, st in it.anomalies:
+            if kind.startswith("nested-same-name-savepoint") and (kind, line) not in bad:
+                bad[(kind, line)] = None
+                rule.violation(fn.file, fn.name, line, "anomaly:%s" % kind,
+                               "%s is called at L%s while this function's own `savepoint s` is open, and it can set a `savepoint s` of "
+                               "its own: when it fails it only does ROLLBACK TO s, which leaves its savepoint on the stack, so this "
+                               "function's ROLLBACK TO s returns to the callee's savepoint and the modifications made here before "
+                               "the call survive the failure" % (kind.split(":")[1], line),
+                               path=["L%s" % x for x in st.trail_lines()])
+            if kind == "full-rollback-without-own-transaction" and (kind, line) not in bad:
+                bad[(kind, line)] = None
+                rule.violation(fn.file, fn.name, line, "anomaly:%s" % kind,
+                               "a plain ROLLBACK at L%s is executed on a path where this function has no transaction of its own "
+                               "open (its BEGIN failed or was not reached): it can only roll back a transaction held by someone "
+                               "else - the one an open packet iterator lives in - whose pending changes are lost" % line,
+                               path=["L%s" % x for x in st.trail_lines()])
+                continue
             if kind.startswith("full-") and (kind, line) not in bad:
                 bad[(kind, line)] = None
                 rule.violation(fn.file, fn.name, line, "anomaly:%s" % kind,
